@@ -137,3 +137,21 @@ mod test {
         (0..16).for_each(|i| assert_eq!(s.estimate(i), 0));
     }
 }
+#[cfg(feature = "verif-hooks")]
+impl CountMinSketch {
+    pub(crate) fn verif_rows(&self) -> Vec<Vec<u8>> {
+        self.rows.iter().map(|r| r.verif_counters()).collect()
+    }
+
+    pub(crate) fn verif_seeds(&self) -> Option<[u64; DEPTH]> {
+        Some(self.seeds)
+    }
+
+    pub(crate) fn verif_mask(&self) -> u64 {
+        self.mask
+    }
+
+    pub(crate) fn verif_set_seeds(&mut self, seeds: [u64; DEPTH]) {
+        self.seeds = seeds;
+    }
+}
